@@ -16,6 +16,7 @@ import (
 	"strings"
 	"sync"
 	"sync/atomic"
+	"time"
 
 	"go.uber.org/zap"
 	"go.uber.org/zap/zapcore"
@@ -50,6 +51,8 @@ var (
 		{`[]int{1}`, []int{1}},                 // a value zap.Any turns into an array field
 		{`zap.String("error","typed")`, typedErrKeyAtom}, // a typed field that happens to use the key the first bare error gets
 		{`errObj{}`, errObj{}},                           // an error that is also an ObjectMarshaler: bare it is an error, as a pair's value zap.Any picks the object form
+		{`float32(0.1)`, float32(0.1)},                   // a value whose field type must stay the narrow one (Float32, not a widened Float64); as a key: not a string
+		{`time.Duration(5)`, 5 * time.Nanosecond},        // a non-string key that has a String method (still not a string key); as a value: a Duration field
 	}
 )
 
